@@ -55,23 +55,108 @@ fn usage() -> ! {
     std::process::exit(2)
 }
 
+/// Re-executes fsim as a supervised child under the getrandom shim (HashMap iteration order, i.e. `RandomState`, must
+/// be reproducible). The parent only supervises: a child that is killed by a signal / aborts (an allocation of an
+/// absurd size requested by the code under test aborts the process, it does not unwind) is a verdict, not a crash of
+/// the check: the parent finds the run that aborts, writes a replay file for it and reports the violation.
 fn ensure_detrand() {
-    // HashMap iteration order (RandomState) must be reproducible: re-exec under the getrandom shim if needed.
     let shim = "/verif/detrand/libdetrand.so";
     let have = std::env::var("LD_PRELOAD").map(|v| v.contains("libdetrand")).unwrap_or(false);
-    if !have {
-        if !std::path::Path::new(shim).exists() {
-            eprintln!("HARNESS-ERROR: {shim} missing (run MANIFEST.setup_cmd)");
-            std::process::exit(2);
-        }
-        use std::os::unix::process::CommandExt;
-        let err = std::process::Command::new(std::env::current_exe().unwrap())
-            .args(std::env::args().skip(1))
-            .env("LD_PRELOAD", shim)
-            .exec();
-        eprintln!("HARNESS-ERROR: exec failed: {err}");
+    if have {
+        return;
+    }
+    if !std::path::Path::new(shim).exists() {
+        eprintln!("HARNESS-ERROR: {shim} missing (run MANIFEST.setup_cmd)");
         std::process::exit(2);
     }
+    let args: Vec<String> = std::env::args().skip(1).collect();
+    let inflight = format!("/verif/sim/target/inflight.{}", std::process::id());
+    let _ = std::fs::remove_file(&inflight);
+    let status = std::process::Command::new(std::env::current_exe().unwrap()).args(&args).env("LD_PRELOAD", shim).env("FSIM_INFLIGHT", &inflight).status();
+    let status = match status {
+        Ok(s) => s,
+        Err(e) => {
+            eprintln!("HARNESS-ERROR: cannot start the simulator child: {e}");
+            std::process::exit(2);
+        }
+    };
+    let aborted = status.code().map(|c| c == 134).unwrap_or(true);
+    if !aborted {
+        let _ = std::fs::remove_file(&inflight);
+        std::process::exit(status.code().unwrap_or(2));
+    }
+    // the child died: which run was it?
+    let code = supervise_abort(&args, shim, &inflight);
+    let _ = std::fs::remove_file(&inflight);
+    std::process::exit(code);
+}
+
+/// Run indices the dead child had in flight (one 8-byte slot per worker; u64::MAX = idle).
+fn inflight_runs(path: &str) -> Vec<u64> {
+    let bytes = std::fs::read(path).unwrap_or_default();
+    let mut v: Vec<u64> = bytes.chunks_exact(8).map(|c| u64::from_le_bytes(c.try_into().unwrap())).filter(|x| *x != u64::MAX).collect();
+    v.sort();
+    v.dedup();
+    v
+}
+
+fn supervise_abort(args: &[String], shim: &str, inflight: &str) -> i32 {
+    let exe = std::env::current_exe().unwrap();
+    if args.first().map(|a| a == "--replay").unwrap_or(false) {
+        // replaying a recorded abort aborts again: that is the reproduction
+        let path = args.get(1).cloned().unwrap_or_default();
+        let prop = std::fs::read_to_string(&path).ok().and_then(|t| serde_json::from_str::<serde_json::Value>(&t).ok()).and_then(|v| v["property"].as_str().map(|s| s.to_string())).unwrap_or_default();
+        println!("replay {path}: the simulated process aborted (killed by a signal / abort())");
+        println!("VIOLATION property={prop} replay={path}");
+        return 1;
+    }
+    let prop = match args.first() {
+        Some(p) if !p.starts_with("--") => p.clone(),
+        _ => {
+            eprintln!("HARNESS-ERROR: the simulator child aborted");
+            return 2;
+        }
+    };
+    let thorough = args.windows(2).any(|w| w[0] == "--tier" && w[1] == "thorough") || std::env::var("VERIF_TIER").map(|t| t == "thorough").unwrap_or(false);
+    let seed: u64 = std::env::var("VERIF_SEED").ok().and_then(|s| s.parse().ok()).unwrap_or(20260923);
+    let cands = inflight_runs(inflight);
+    eprintln!("the simulator process aborted with runs {cands:?} in flight; re-running each of them in a process of its own");
+    for idx in cands {
+        let out = std::process::Command::new(&exe)
+            .args([prop.as_str(), "--tier", if thorough { "thorough" } else { "quick" }, "--run", &idx.to_string()])
+            .env("LD_PRELOAD", shim)
+            .env("VERIF_NOSHRINK", "1")
+            .env_remove("FSIM_INFLIGHT")
+            .output();
+        let Ok(out) = out else { continue };
+        if out.status.code().map(|c| c == 134).unwrap_or(true) {
+            let stderr = String::from_utf8_lossy(&out.stderr);
+            let first = stderr.lines().find(|l| !l.trim().is_empty()).unwrap_or("").chars().take(300).collect::<String>();
+            let input = batch::input_for(&prop, thorough, seed, idx);
+            let rf = batch::ReplayFile {
+                property: prop.clone(),
+                seed,
+                run_index: idx,
+                case: input.case,
+                sched: vec![],
+                io: vec![],
+                violation: hist::Violation { property: prop.clone(), rule: "process-abort".into(), detail: format!("run {idx} makes the process abort: {first}"), shape: Default::default() },
+                minimised: false,
+                note: "the run aborts the process, so its streams could not be recorded: replayed from (seed, run index, tier)".into(),
+                build_variant: batch::build_variant().to_string(),
+                from_seed: true,
+                thorough,
+            };
+            let _ = std::fs::create_dir_all("/verif/replays");
+            let path = format!("/verif/replays/{prop}-{seed}-{idx}-abort.json");
+            std::fs::write(&path, serde_json::to_string_pretty(&rf).unwrap()).unwrap();
+            println!("  [{prop}] process-abort: run {idx} makes the process abort: {first}");
+            println!("VIOLATION property={prop} replay={path}");
+            return 1;
+        }
+    }
+    eprintln!("HARNESS-ERROR: the simulator child aborted but none of the runs in flight aborts on its own");
+    2
 }
 
 fn main() {
@@ -152,6 +237,8 @@ fn main() {
                 minimised: true,
                 note: "written by --run".into(),
                 build_variant: batch::build_variant().to_string(),
+                from_seed: false,
+                thorough: false,
             };
             let _ = std::fs::create_dir_all("/verif/replays/tmp");
             let p = format!("/verif/replays/tmp/{prop}-{idx}.json");
